@@ -307,7 +307,7 @@ func RunOut(args []string) int {
 			w.WriteByte('\n')
 			n++
 			lines += len(r.Wire)
-			if sample == nil {
+			if sample == nil && len(r.Wire) >= 3 {
 				sample = map[string]interface{}{"name": name, "first_wire_lines": r.Wire[:3]}
 			}
 		}
